@@ -7,7 +7,7 @@ PinChecks/PcStrFnGen.vo and compare the outcome with the expectation
 (meaning-preserving rewrite -> proofs pass; change of meaning / outside the
 subset -> a proof fails).  The pristine generated files are restored at the end.
 
-usage: python3 tools/rs2coq_demo.py            (from /tmp/ag_rs2)
+usage: python3 tools/rs2coq_demo.py   (development tool; rebuilds coq/PinChecks/PcStrFnGen.vo per variant and restores the generated files)
 """
 import os
 import re
@@ -18,7 +18,8 @@ import sys
 HERE = os.path.dirname(os.path.abspath(__file__))
 ROOT = os.path.dirname(HERE)
 COQ = os.path.join(ROOT, "coq")
-SCRATCH = os.path.join(ROOT, "scratch_repo")
+import tempfile  # noqa: E402
+SCRATCH = tempfile.mkdtemp(prefix="rs2coq_demo_")     # outside /repo and /verif; removed at the end
 sys.path.insert(0, HERE)
 import pins  # noqa: E402
 
@@ -223,6 +224,7 @@ def main():
     run([sys.executable, os.path.join(HERE, "rs2coq.py"), os.path.join(COQ, "Gen", "EffectorGen.v")], env=env)
     mk = run(["timeout", "600", "make", "PinChecks/PcStrFnGen.vo", "PinChecks/PcEffectorGen.vo"], cwd=COQ)
     print("restored from /repo:", "build ok" if mk.returncode == 0 else "BUILD FAILED")
+    shutil.rmtree(SCRATCH, ignore_errors=True)
     print("%d/%d variants behaved as expected" % (sum(results), len(results)))
     return 0 if all(results) and mk.returncode == 0 else 1
 
